@@ -244,6 +244,13 @@ pub fn run(op: &str, job: &Value) -> Value {
                     }
                     out.insert("sem_a".to_string(), crate::sem::semtype_json(&a));
                     out.insert("sem_b".to_string(), crate::sem::semtype_json(&b));
+                    // the list atoms created by the conversion: index -> (prefix element types, rest type)
+                    let lists: Vec<Value> = ctx.list_definitions.iter().enumerate().map(|(i, d)| match d {
+                        Some(la) => json!([i, {"prefix": la.prefix_items.iter().map(|t| crate::sem::semtype_json(t)).collect::<Vec<_>>(),
+                                               "items": crate::sem::semtype_json(&la.items)}]),
+                        None => json!([i, null]),
+                    }).collect();
+                    out.insert("lists".to_string(), Value::Array(lists));
                     Value::Object(out)
                 }
             }
